@@ -180,7 +180,7 @@ def _gen_case(rng, tier):
 
 def generate(run, tier):
     rng = run.rng("gen")
-    n = 260 if tier == "quick" else 4000
+    n = 260 if tier == "quick" else 3000
     return [_gen_case(rng, tier) for _ in range(n)]
 
 
